@@ -11,7 +11,7 @@
 """
 import ast
 
-from .common import (AnalysisError, Finding, RuleResult, ntext, walk_no_nested, is_self_attr)
+from .common import (AnalysisError, Finding, RuleResult, ntext, walk_no_nested, is_self_attr, call_name)
 
 RULE = 'R21'
 TEXT = ('the LP-format writer and the show() tables cover every field of the program; every '
@@ -61,6 +61,10 @@ def run(repo):
                 other = 'Binary' if section == 'General' else 'General'
                 if section in strs and other not in strs and (used & derived):
                     ok = True
+        literal_tests = [c for c in walk_no_nested(fi.node) if isinstance(c, ast.Compare) and
+                         is_self_attr(c.left, 'vtype') and isinstance(c.comparators[0], ast.Constant)]
+        if not ok and not names and len(literal_tests) < 2 and any(section in c for c in _str_consts(fi.node)):
+            raise AnalysisError('lp_export: the `%s` section is written in a form the rule does not follow' % section)
         res.inst({'lp_export section': section, 'selected_by': "vtype == '%s'" % letter, 'ok': ok}, ok)
         if not ok:
             res.fail(Finding(RULE, fi.fq, 'section %s' % section,
@@ -78,7 +82,9 @@ def run(repo):
     bl = bloops[0]
     cond = [x for x in ast.walk(ast.Module(body=bl.body, type_ignores=[]))
             if isinstance(x, (ast.If, ast.Continue, ast.Break, ast.IfExp))]
-    over_all = 'nvar' in ntext(bl.iter) or 'len(' in ntext(bl.iter) or 'shape[1]' in ntext(bl.iter)
+    over_all = 'nvar' in ntext(bl.iter) or 'len(' in ntext(bl.iter) or 'shape[1]' in ntext(bl.iter) or \
+        (isinstance(bl.iter, ast.Call) and call_name(bl.iter) in ('enumerate', 'zip') and
+         any(ntext(a).split('.')[-1] in ('ub', 'lb') for a in bl.iter.args))
     ok = not cond and over_all and any(is_self_attr(x, 'ub') or ntext(x) == 'ub' for x in ast.walk(bl)) \
         and any(is_self_attr(x, 'lb') or ntext(x) == 'lb' for x in ast.walk(bl))
     res.inst({'lp_export': 'Bounds section', 'unconditional_line_per_column': ok}, ok)
@@ -97,19 +103,31 @@ def run(repo):
     for n in walk_no_nested(f2.node):
         if isinstance(n, ast.For) and any(is_self_attr(x, 'qmat') for x in ast.walk(n.iter)):
             loopvar = [x.id for x in ast.walk(n.target) if isinstance(x, ast.Name)][-1]
-    head_ok = tail_ok = False
-    if loopvar:
-        for n in walk_no_nested(f2.node):
-            if isinstance(n, ast.Call) and isinstance(n.func, ast.Attribute) and n.func.attr == 'format':
-                s = ''.join(_str_consts(n.func.value))
-                a = ' '.join(ntext(x) for x in n.args)
-                if '- x{}' in s.replace('  ', ' ') and '%s[0]' % loopvar in a:
-                    head_ok = True
-            if isinstance(n, ast.Call) and isinstance(n.func, ast.Attribute) and n.func.attr == 'join':
-                s = ''.join(_str_consts(n.func.value))
-                a = ntext(n.args[0]) if n.args else ''
-                if '+' in s and '%s[1:]' % loopvar in a:
-                    tail_ok = True
+    if loopvar is None:
+        raise AnalysisError('SOCProg.lp_export: the loop over self.qmat was not found')
+    from .common import single_defs, expand_locals
+    qdefs = single_defs(f2.node)
+
+    def qx(e):
+        return ntext(expand_locals(f2.node, e, depth=2, defs=qdefs))
+    head_sign = tail_sign = None
+    for n in walk_no_nested(f2.node):
+        pieces, args = None, []
+        if isinstance(n, ast.Call) and isinstance(n.func, ast.Attribute) and n.func.attr == 'format':
+            pieces, args = ''.join(_str_consts(n.func.value)), list(n.args)
+        elif isinstance(n, ast.JoinedStr):
+            pieces = ''.join(v.value for v in n.values if isinstance(v, ast.Constant) and isinstance(v.value, str))
+            args = [v.value for v in n.values if isinstance(v, ast.FormattedValue)]
+        if pieces is not None and any('%s[0]' % loopvar in qx(a) for a in args):
+            t = pieces.replace('  ', ' ')
+            head_sign = '-' if '- x' in t else '+' if '+ x' in t else head_sign
+        if isinstance(n, ast.Call) and isinstance(n.func, ast.Attribute) and n.func.attr == 'join' and n.args:
+            if '%s[1:]' % loopvar in qx(n.args[0]):
+                js = ''.join(_str_consts(n.func.value))
+                tail_sign = '+' if '+' in js else '-' if '-' in js else tail_sign
+    if head_sign is None or tail_sign is None:
+        raise AnalysisError('SOCProg.lp_export: the text written for the head / tail of a cone was not recognised')
+    head_ok, tail_ok = head_sign == '-', tail_sign == '+'
     ok = ok_q and head_ok and tail_ok
     res.inst({'socp lp_export': 'cone rows', 'reads_qmat': ok_q, 'head_negative': head_ok,
               'tail_positive': tail_ok}, ok)
@@ -184,6 +202,21 @@ EQ_HINT = ('_eq', 'eq_', 'is_eq', 'bool_eq', "'E'", "' = '", '==', "'='", 'equal
 INEQ_HINT = ('ineq', "'L'", "' <= '", '<=', "'<'", 'lessThan', 'np.zeros')
 
 
+def _name_kind(names):
+    """'eq' / 'ineq' when the identifier says which rows it holds (by its words), else None"""
+    import re as _re
+    words = [w for w in _re.split(r'[^a-z]+', names.lower()) if w]
+    INEQ = {'ineq', 'leq', 'le', 'lt', 'geq', 'inequality', 'inequalities', 'nineq', 'nleq', 'less', 'ub'}
+    EQ = {'eq', 'equal', 'equality', 'equalities', 'neq', 'equals'}
+    is_ineq = any(w in INEQ or w.endswith('ineq') or w.endswith('leq') for w in words)
+    is_eq = any(w in EQ or (w.endswith('eq') and not w.endswith('ineq') and not w.endswith('leq')) for w in words)
+    if is_ineq and not is_eq:
+        return 'ineq'
+    if is_eq and not is_ineq:
+        return 'eq'
+    return None
+
+
 def _sense_use(cmp_node, value, par):
     """True: consistent; False: inconsistent; None: unknown use."""
     # climb to the statement / IfExp / If that uses the comparison
@@ -206,10 +239,9 @@ def _sense_use(cmp_node, value, par):
                 for t, v in zip(p.targets[0].elts, p.value.elts):
                     if any(cmp_node is x for x in ast.walk(v)):
                         names = ntext(t)
-            is_ineq = 'ineq' in names
-            is_eq = ('eq' in names and not is_ineq) or 'equal' in names
-            if is_eq or is_ineq:
-                return (value == 1) == is_eq
+            kind = _name_kind(names)
+            if kind is not None:
+                return (value == 1) == (kind == 'eq')
             return None
         if isinstance(p, (ast.Subscript,)) and isinstance(par.get(id(p)), ast.Assign):
             a = par[id(p)]
